@@ -86,6 +86,7 @@ def run(chk):
         chk.analysed(f)
         dumper(chk, f, E, mol, ens)
     r6_stream(chk, prog.func(f"{WR}:dump"))
+    r3_class_wrappers(chk, ens)
 
 
 def _dispatch(chk, f, fmt_table):
@@ -292,3 +293,44 @@ def r6_stream(chk, f):
             bad.append(f"`{guard}` is never set: an opened file is never closed")
     # the isinstance test selects the branch
     chk.decide(not bad, "C09.R6", key, f.where(closes[0]), "close() only under the flag set where the file is opened", "; ".join(bad))
+
+
+def r3_class_wrappers(chk, ens):
+    """the name override travels down the class-level wrappers to the object that is returned"""
+    from .common_fwd import forwarding
+
+    prog = chk.prog
+    n = forwarding(chk, "C09.R3", "name", "the name override given to the public loader is lost")
+    chk.require(n >= 10, "loader wrappers with `name` not found")
+    for spec in ("molli.chem.geometry:CartesianGeometry.yield_from_xyz", "molli.chem.structure:Structure.yield_from_mol2"):
+        f = prog.func(spec)
+        chk.analysed(f)
+        reach = False
+        for st in walk_no_nested(f.node):
+            if isinstance(st, ast.Assign) and norm(st.targets[0]).endswith(".name") and "name" in names_in(st.value):
+                reach = True
+            if isinstance(st, ast.Call) and call_name(st) == "cls":
+                v = kwarg(st, "name")
+                if v is not None:
+                    # name= may go through a local computed from `name`
+                    from ..core import assignments
+                    asg = assignments(f.node)
+                    srcs = names_in(v)
+                    for x in list(srcs):
+                        for val in asg.get(x, []):
+                            if isinstance(val, ast.AST):
+                                srcs |= names_in(val)
+                    if "name" in srcs:
+                        reach = True
+        chk.decide(reach, "C09.R3", f"{f.key}:name-reaches-product", f.where(), "name (or the file's own name) is given to the product",
+                   f"{f.qualname} does not give the `name` override to the object it yields")
+    init = prog.method(ens, "__init__")
+    chk.analysed(init)
+    sups = [c for c in walk_no_nested(init.node) if isinstance(c, ast.Call) and norm(c.func) == "super().__init__"]
+    chk.require(len(sups) >= 1, "ConformerEnsemble.__init__: super().__init__ not found")
+    for i, c in enumerate(sups):
+        v = kwarg(c, "name")
+        branch = "list-of-structures" if "other[0]" in norm(c) else "default"
+        chk.decide(v is not None and "name" in names_in(v), "C09.R3", f"{init.key}:{branch}:name", init.where(c), f"name={norm(v) if v is not None else None}",
+                   f"the {branch} branch of ConformerEnsemble.__init__ passes name={norm(v) if v is not None else None} and ignores the `name` argument: "
+                   "ConformerEnsemble.load_mol2(f, name='zzz').name is the first conformer's name")
